@@ -71,6 +71,21 @@ class C12(Prop):
         if cancelled_at is not None and cancelled_at < je['at'] and not je['joiner_cancelled']:
             return ('a task cancelled from outside while joining a task group did not end cancelled '
                     f"(ended with {je['joiner_exc'] or 'a normal return'})")
+        # the clean-up a join promises still takes place: members are cancelled and awaited
+        if cancelled_at is not None and cancelled_at < je['at'] and je['joiner_cancelled'] and (je['entered'] or je.get('exiting')):
+            snap = obs['trace'][je['at'] - 1][1] or {}
+            forgotten = [t for t in je['undone'] if t not in snap.get('cancelreq', [])]
+            if forgotten and je['joined']:
+                return (f'a join cancelled from outside completed (joined is set) while members {forgotten} of the group were '
+                        'still running without even a cancellation request (clean-up skipped)')
+            if je['undone'] and not je['joined']:
+                return ('the joining task was cancelled while join waited for cancelled members: '
+                        'it ended with members still running')
+        return None
+
+    def classify(self, case, obs, clause):
+        if case.get('tg') and 'joining task was cancelled while' in clause:
+            return 'F12'
         return None
 
     def extra_checks(self, ctx):
@@ -80,12 +95,30 @@ class C12(Prop):
         out = []
         n = 400 if ctx['tier'] == 'quick' else 6000
         hit = 0
-        for _ in range(n):
-            case = tg_common.gen_case(rng)
+        # directed: the cancellation lands in the join's wait with every member running; a member adds a task
+        # (a daemon, a regular one) to the group while it is being cancelled
+        directed = [{'policy': pol, 'mode': mode, 'retain': False, 'init': [], 'tg': True, 'wrap': wrap,
+                     'members': [{'react': r1, 'daemon': False}, {'react': 'reraise', 'daemon': d2}],
+                     'actions': [['start']] + [['tick']] * 8 + [['cancelJ']] + [['tick']] * 24}
+                    for pol in ('all', 'any', 'object') for mode in ('join', 'aexit') for r1 in ('spawnd', 'spawn', 'slow')
+                    for d2 in (False, True) for wrap in ([], ['timeout'])]
+        for k in range(n + len(directed)):
+            if k < len(directed):
+                case = directed[k]
+                obs = tg_common.run_case(case)
+                cl = self.group_oracle(case, obs)
+                if cl:
+                    out.append(Failure(case, obs, cl))
+                continue
+            # half of the programs: members that add tasks (daemons too) to the group while they are being cancelled
+            case = tg_common.gen_case(rng, {'reacts': ['spawnd', 'spawnd', 'spawn', 'reraise', 'slow']} if rng.random() < 0.5 else None)
             case['tg'] = True
             case['wrap'] = [rng.choice(['timeout', 'ignore']) for _ in range(rng.randrange(0, 3))]
             if not any(a[0] == 'cancelJ' for a in case['actions']):
                 case['actions'].insert(rng.randrange(2, len(case['actions'])), ['cancelJ'])
+            if rng.random() < 0.4:
+                # the cancellation lands while join is waiting in its loop, with every member still running
+                case['actions'] = [['start']] + [['tick']] * 8 + [['cancelJ']] + [['tick']] * 14 + case['actions']
             obs = tg_common.run_case(case)
             cl = self.group_oracle(case, obs)
             if obs['join_end'] and obs['join_end']['joiner_cancelled']:
